@@ -50,6 +50,9 @@ def file_index_of(ctl, args, kwargs, fallback):
 	from gambit.seq import SequenceFile
 	for x in list(args) + list(kwargs.values()):
 		if isinstance(x, SequenceFile) and str(x.path) in ctl.index:
+			occ = ctl.occ.get(str(x.path))
+			if occ:
+				return occ.pop(0)        # a file given several times: the k-th task about it stands for its k-th occurrence in the list
 			return ctl.index[str(x.path)]
 	return fallback
 
@@ -58,7 +61,11 @@ class Ctl:
 	def __init__(self, n, files, mp):
 		ctx = multiprocessing.get_context('fork') if mp else threading
 		self.n = n
-		self.index = {str(f.path): i for i, f in enumerate(files)}
+		self.index = {}
+		self.occ = {}
+		for i, f in enumerate(files):
+			self.index.setdefault(str(f.path), i)
+			self.occ.setdefault(str(f.path), []).append(i)
 		self.gates = [ctx.Semaphore(0) for _ in range(n)]
 		self.at_gate = [ctx.Event() for _ in range(n)]
 		self.pre_done = threading.Event()
@@ -372,6 +379,8 @@ def plan(tier, seed):
 			for fault in [None] + list(range(n)):
 				tasks.append(('t_orders', dict(n=n, mode=mode, w=w, fault=fault, tier=tier, seed=seed)))
 	tasks.append(('t_sequential', dict(n=n)))
+	for pi in range(len(REPEATS)):
+		tasks.append(('t_repeated', dict(pi=pi)))
 	for mode in ('threads', 'processes', 'executor'):
 		tasks.append(('t_many_files', dict(mode=mode, tier=tier)))
 	# call HISTORIES: state carried from one call to the next (same thread / reused executor), incl. calls that fail mid-file
@@ -406,6 +415,53 @@ def t_orders(n, mode, w, fault, tier, seed):
 	sh.states = nstates
 	sh.transitions = ntrans
 	sh.sample(dict(family='orders', mode=mode, workers=w, n=n, fault=fault, last_order=list(order), pre_completed=p, model_states=nstates))
+	return sh
+
+
+# file lists naming the same file more than once (the same genome twice on a command line or in a list file): one signature per ENTRY
+REPEATS = ['aa', 'aba', 'aab', 'baa', 'abac', 'abca', 'aaa', 'abab', 'abba']
+
+
+def t_repeated(pi, only=None):
+	"""Every completion order (caller-supplied executor, all futures outstanding, p futures completed before the call starts collecting) for file
+	lists with repeated entries; plus the sequential path and free-running thread / process pools with 1, 2, n workers."""
+	from gambit.sigs.calc import calc_file_signature, calc_file_signatures
+	from gambit.sigs.base import SignatureList
+	sh = Shard()
+	ks = fixtures.kspec(11, 'ATGAC')
+	pat = REPEATS[pi]
+	n = len(pat)
+	with fixtures.workdir('c13p') as d:
+		base = make_files(d, 3)
+		files = [base['abc'.index(ch)] for ch in pat]
+		expected = [calc_file_signature(ks, f) for f in files]
+		orders, nstates, ntrans = model_orders(n, n)
+		for order in orders:
+			for p in (0, 1, n):
+				if only is not None and (list(order), p, 'executor') != only:
+					continue
+				nb = len(sh.violations)
+				run_one(sh, ks, files, expected, 'executor', n, order, p, None, None)
+				for v in sh.violations[nb:]:
+					v['case']['repeated'] = pat
+		for mode, w in [(None, 0), ('threads', 1), ('threads', 2), ('threads', n), ('processes', 1), ('processes', 2), ('processes', n)]:
+			if only is not None and only != ['free', mode, w]:
+				continue
+			sh.evals += 1
+			case = dict(mode='repeated-free-running', repeated=pat, concurrency=mode, workers=w, n=n, order=None, pre_completed=0, fault=None, faultkind=None)
+			try:
+				res = calc_file_signatures(ks, files, concurrency=mode, **(dict(max_workers=w) if mode else {}))
+			except BaseException as e:
+				sh.violation('unexpected-exception', case, 'one signature per entry', repr(e))
+				continue
+			if not (isinstance(res, SignatureList) and len(res) == n and all(isinstance(a, np.ndarray) and np.array_equal(a, b) and a.dtype == b.dtype for a, b in zip(res, expected))):
+				sh.violation('wrong-result', case, [e.tolist()[:6] for e in expected], [None if r is None else np.asarray(r).tolist()[:6] for r in res])
+				continue
+			sh.nontrivial += 1
+			sh.count('repeated_entry_lists_free_running')
+	sh.count('repeated_entry_lists', 1)
+	sh.states, sh.transitions = nstates, ntrans
+	sh.sample(dict(family='repeated', pattern=pat, orders=len(orders)))
 	return sh
 
 
@@ -754,6 +810,10 @@ def replay(case, kind=None):
 		return [v for v in vs if v['case'].get('history') == case['history'] and v['case'].get('k') == case.get('k')][:1]
 	if case['mode'] == 'bodies':
 		return [v for v in t_bodies(case['pair'], 2).violations if v['case'].get('schedule') == case['schedule']][:1] or t_bodies(case['pair'], 2).violations[:1] and []
+	if case.get('repeated'):
+		pi = REPEATS.index(case['repeated'])
+		only = ['free', case.get('concurrency'), case['workers']] if case['mode'] == 'repeated-free-running' else (list(case['order']), case['pre_completed'], 'executor')
+		return t_repeated(pi, only=only).violations[:1]
 	if case['mode'] == 'empty-list':
 		return [v for v in t_sequential(4).violations if v['case'].get('mode') == 'empty-list' and v['case'].get('kw') == case.get('kw')][:1]
 	if case['mode'] == 'sequential' or case['mode'] not in ('threads', 'processes', 'executor'):
